@@ -337,6 +337,12 @@ func init() {
 			if cond == nil {
 				return []Obligation{mkOb(c, "LEX.minus-delimiters", u, "case '-'", minus, Undecided, "the '-' case has no standalone test", false)}
 			}
+			// the test may be named first: `standsAlone := !ok || unicode.IsSpace(c) || …; if standsAlone`
+			if id, ok := ast.Unparen(cond).(*ast.Ident); ok {
+				if d, ok := boolLocalUse[id]; ok {
+					cond = d
+				}
+			}
 			// the runes the test can accept: written in the condition, or in a boolean helper of
 			// the package the condition calls (comparisons, case lists, ContainsRune sets)
 			var collect func(info *types.Info, root ast.Node, depth int)
